@@ -1,5 +1,6 @@
 import WellenModel.Model.Store
 import WellenModel.Proofs.Stream
+import WellenModel.Proofs.Canon
 /-!
 Block level: the offset table `finish_block` writes lets `Block::get_offset_and_length` cut every signal's bytes back
 out of the block data, for every number of signals and every mix of signals with and without data.
@@ -273,5 +274,232 @@ theorem single_block_load (c : Codec) (signals : Array SigEnc) (i : Nat) (s : Si
     have hnot : ¬ (divCeil s.dataBytes.length 32 * 32 < s.dataBytes.length) := by omega
     simp only [Option.map_some, hnot, ↓reduceIte]
     rw [hdata, loadFixed_stream bits hb s.maxStates cs hcs _ 0 {} (by rw [← hdata]; exact hfuel)]
+
+end Wellen.Store
+
+namespace Wellen.Store
+open Wellen.Bits
+
+theorem charsToNums_length (chars : List Nat) : ∀ nums, charsToNums chars = some nums → nums.length = chars.length := by
+  induction chars with
+  | nil => intro nums h; simp [charsToNums] at h; subst h; rfl
+  | cons c r ih =>
+    intro nums h
+    simp only [charsToNums] at h
+    cases hc : bitCharToNum c with
+    | none => simp [hc] at h
+    | some v =>
+      cases hr : charsToNums r with
+      | none => simp [hc, hr] at h
+      | some vs =>
+        simp [hc, hr] at h
+        subst h
+        simp [ih vs hr]
+
+theorem expandSpecial_length (value : List Nat) (len : Nat) (out : List Nat) (h : expandSpecial value len = some out) :
+    out.length = len := by
+  unfold expandSpecial at h
+  split at h
+  · cases h
+  · rename_i hlt
+    cases value with
+    | nil => simp at h
+    | cons c r =>
+      simp only at h
+      split at h
+      · cases h; simp at hlt ⊢; omega
+      · split at h
+        · cases h; simp at hlt ⊢; omega
+        · cases h
+
+/-- **the VCD text path appends a well-formed chunk**: a successful `add_vcd_change` on a multi-bit signal appends
+LEB128(delta << 2 | kind) followed by the packing of exactly `bits` symbols -/
+theorem addVcd_chunk (ti : Nat) (value : List Nat) (realLe : Option (List Nat)) (s s' : SigEnc) (bits : Nat)
+    (ht : s.tpe = .bitvec bits) (hb : bits ≠ 1) (h : addVcd ti value realLe s = some s') :
+    ∃ st nums, nums.length = bits ∧ (∀ v ∈ nums, v < 9) ∧
+      s'.chunks = encChange (ti - s.prevTimeIdx) st (writeNState st nums none) :: s.chunks ∧
+      s'.prevTimeIdx = ti ∧ s'.tpe = s.tpe ∧ s'.maxStates = States.join s.maxStates st := by
+  unfold addVcd at h
+  cases value with
+  | nil => simp at h
+  | cons c0 rest =>
+    simp only [ht, hb, ↓reduceIte] at h
+    -- name the token after prefix stripping
+    generalize hvb : (if (if c0 = 98 ∨ c0 = 66 then rest else c0 :: rest).length ≤ 2 then (if c0 = 98 ∨ c0 = 66 then rest else c0 :: rest)
+        else if List.take 2 (if c0 = 98 ∨ c0 = 66 then rest else c0 :: rest) = [48, 98] then List.drop 2 (if c0 = 98 ∨ c0 = 66 then rest else c0 :: rest)
+        else (if c0 = 98 ∨ c0 = 66 then rest else c0 :: rest)) = vb at h
+    cases hst : checkStates vb with
+    | none => simp [hst] at h
+    | some st =>
+      simp only [hst] at h
+      cases hch : (if vb.length = bits then some vb else expandSpecial vb bits) with
+      | none => simp [hch] at h
+      | some chars =>
+        simp only [hch] at h
+        cases hn : charsToNums chars with
+        | none => simp [hn] at h
+        | some nums =>
+          simp only [hn] at h
+          cases h
+          have hlen : chars.length = bits := by
+            split at hch
+            · cases hch; assumption
+            · exact expandSpecial_length vb bits chars hch
+          refine ⟨st, nums, by rw [charsToNums_length chars nums hn, hlen], Wellen.Spec.charsToNums_lt chars nums hn, rfl, rfl, ht.symm, rfl⟩
+
+end Wellen.Store
+
+namespace Wellen.Store
+open Wellen.Bits
+
+/-- consecutive differences of the time indices at which changes are recorded, starting from `p` -/
+def deltasFrom (p : Nat) : List Nat → List Nat
+  | [] => []
+  | t :: r => (t - p) :: deltasFrom t r
+
+/-- a sequence of `add_vcd_change` calls (time index, value token) on one signal; `none` = some call is rejected -/
+def vcdWrites (s0 : SigEnc) : List (Nat × List Nat) → Option SigEnc
+  | [] => some s0
+  | c :: r => match addVcd c.1 c.2 none s0 with
+    | none => none
+    | some s1 => vcdWrites s1 r
+
+theorem dataBytes_cons (s : SigEnc) (ch : List Nat) (chunks : List (List Nat)) (h : s.chunks = ch :: chunks) :
+    s.dataBytes = (chunks.reverse.flatten) ++ ch := by
+  simp [SigEnc.dataBytes, h]
+
+/-- **the data a signal accumulates through the VCD text path is a well-formed chunk stream** whose deltas are the differences
+of the time indices of the calls and whose payloads are packings of exactly `bits` symbols -/
+theorem vcdWrites_stream (bits : Nat) (hb : bits ≠ 1) (calls : List (Nat × List Nat)) : ∀ (s0 s : SigEnc),
+    s0.tpe = .bitvec bits → vcdWrites s0 calls = some s →
+    ∃ cs : List (Nat × States × List Nat),
+      s.dataBytes = s0.dataBytes ++ encStream cs ∧
+      cs.map (·.1) = deltasFrom s0.prevTimeIdx (calls.map (·.1)) ∧
+      (∀ c ∈ cs, ∃ nums, nums.length = bits ∧ (∀ v ∈ nums, v < 9) ∧ c.2.2 = writeNState c.2.1 nums none) ∧
+      s.tpe = s0.tpe ∧ s.maxStates = (cs.map (·.2.1)).foldl States.join s0.maxStates := by
+  induction calls with
+  | nil =>
+    intro s0 s _ h
+    simp only [vcdWrites] at h; cases h
+    exact ⟨[], by simp [encStream], rfl, by simp, rfl, rfl⟩
+  | cons c r ih =>
+    intro s0 s ht h
+    simp only [vcdWrites] at h
+    cases h1 : addVcd c.1 c.2 none s0 with
+    | none => simp [h1] at h
+    | some s1 =>
+      simp only [h1] at h
+      obtain ⟨st, nums, hlen, hlt, hch, hprev, htpe, hmax⟩ := addVcd_chunk c.1 c.2 none s0 s1 bits ht hb h1
+      obtain ⟨cs, hd, hdl, hpay, ht2, hm2⟩ := ih s1 s (by rw [htpe]; exact ht) h
+      refine ⟨(c.1 - s0.prevTimeIdx, st, writeNState st nums none) :: cs, ?_, ?_, ?_, by rw [ht2, htpe], ?_⟩
+      · rw [hd, dataBytes_cons s1 _ _ hch]
+        simp [SigEnc.dataBytes, encStream, List.append_assoc]
+      · simp [deltasFrom, hdl, hprev]
+      · intro x hx
+        rcases List.mem_cons.mp hx with rfl | hx
+        · exact ⟨nums, hlen, hlt, rfl⟩
+        · exact hpay x hx
+      · simp [hm2, hmax]
+
+end Wellen.Store
+
+namespace Wellen.Store
+open Wellen.Bits
+
+/-- changes with absolute time indices -/
+def absolutise (p : Nat) : List (Nat × States × List Nat) → List (Nat × States × List Nat)
+  | [] => []
+  | c :: r => (p + c.1, c.2.1, c.2.2) :: absolutise (p + c.1) r
+
+/-- the loader's accumulator after pushing changes given with absolute time indices -/
+def replayAbs (bits : Nat) (sigS : States) (xs : List (Nat × States × List Nat)) (a : Acc) : Acc :=
+  xs.foldl (fun a x => a.push x.1 (alignEntry sigS x.2.1 bits x.2.2)) a
+
+theorem replayFixed_abs (bits : Nat) (sigS : States) (cs : List (Nat × States × List Nat)) : ∀ (last : Nat) (a : Acc),
+    (replayFixed bits sigS cs last a).2 = replayAbs bits sigS (absolutise last cs) a := by
+  induction cs with
+  | nil => intro last a; rfl
+  | cons c cs ih =>
+    intro last a
+    simp only [replayFixed, List.foldl_cons, absolutise, replayAbs]
+    exact ih (last + c.1) _
+
+/-- the absolute times of a delta list built from non-decreasing time indices are those indices -/
+theorem absolutise_times (l : List Nat) : ∀ (p : Nat) (cs : List (Nat × States × List Nat)),
+    cs.map (·.1) = deltasFrom p l → (l.Pairwise (· ≤ ·)) → (∀ t ∈ l, p ≤ t) →
+    (absolutise p cs).map (·.1) = l := by
+  induction l with
+  | nil =>
+    intro p cs h _ _
+    simp [deltasFrom] at h
+    subst h; rfl
+  | cons t r ih =>
+    intro p cs h hs hp
+    cases cs with
+    | nil => simp [deltasFrom] at h
+    | cons c cs =>
+      simp only [List.map_cons, deltasFrom, List.cons.injEq] at h
+      have hpt := hp t (by simp)
+      have hs' := List.pairwise_cons.mp hs
+      have e : p + c.1 = t := by rw [h.1]; omega
+      simp only [absolutise, List.map_cons, e]
+      congr 1
+      exact ih t cs h.2 hs'.2 (fun u hu => hs'.1 u hu)
+
+theorem deltasFrom_le (l : List Nat) : ∀ p, ∀ d ∈ deltasFrom p l, ∃ t ∈ l, d ≤ t := by
+  induction l with
+  | nil => intro p d hd; simp [deltasFrom] at hd
+  | cons t r ih =>
+    intro p d hd
+    simp only [deltasFrom, List.mem_cons] at hd
+    rcases hd with rfl | hd
+    · exact ⟨t, by simp, by omega⟩
+    · obtain ⟨u, hu, hle⟩ := ih t d hd
+      exact ⟨u, by simp [hu], hle⟩
+
+theorem hdr_bound (d : Nat) (st : States) (hd : d < 2 ^ 30) : ((d <<< 2) ||| st.toNat) < 2 ^ 32 := by
+  have hk := states_toNat_lt st
+  rw [← Nat.shiftLeft_add_eq_or_of_lt (by omega : st.toNat < 2 ^ 2), Nat.shiftLeft_eq]
+  omega
+
+/-- **the VCD vector path is transparent within a block**: a fresh multi-bit signal that receives any number of VCD value
+tokens at non-decreasing time indices (below 2^30) is, after `finish_block` — whatever other signals share the block and
+whatever the compression decision — loaded back as one entry per call at the call's time index, each entry being the aligned
+packing of exactly `bits` symbols of that call (immediate repetitions dropped) -/
+theorem vcd_block_roundtrip (c : Codec) (signals : Array SigEnc) (i : Nat) (s : SigEnc) (bits : Nat) (tt : List Nat) (t0 : Nat)
+    (calls : List (Nat × List Nat)) (hb : bits ≠ 1) (hne : calls ≠ [])
+    (hw : vcdWrites { tpe := .bitvec bits } calls = some s) (hs : signals.toList[i]? = some s)
+    (hsorted : (calls.map (·.1)).Pairwise (· ≤ ·)) (hsmall : ∀ t ∈ calls.map (·.1), t < 2 ^ 30)
+    (hlen : divCeil s.dataBytes.length 32 < 2 ^ 32) :
+    ∃ cs : List (Nat × States × List Nat),
+      (absolutise 0 cs).map (·.1) = calls.map (·.1) ∧
+      (∀ x ∈ cs, ∃ nums, nums.length = bits ∧ (∀ v ∈ nums, v < 9) ∧ x.2.2 = writeNState x.2.1 nums none) ∧
+      (let r := finishSignals c signals
+       let b : Block := { startTime := t0, timeTable := tt, offsets := r.2.1, data := r.2.2 }
+       loadSignal { blocks := [b] } i (.bitvec bits) =
+         some { maxStates := s.maxStates,
+                times := (replayAbs bits s.maxStates (absolutise 0 cs) {}).timesRev.reverse,
+                entries := (replayAbs bits s.maxStates (absolutise 0 cs) {}).entriesRev.reverse }) := by
+  obtain ⟨cs, hd, hdl, hpay, _, _⟩ := vcdWrites_stream bits hb calls { tpe := .bitvec bits } s rfl hw
+  have hd' : s.dataBytes = encStream cs := by simpa [SigEnc.dataBytes] using hd
+  have hcsne : cs ≠ [] := by
+    intro he; subst he
+    cases calls with
+    | nil => exact hne rfl
+    | cons c0 r => simp [deltasFrom] at hdl
+  have hcs : ∀ x ∈ cs, x.2.2.length = divCeil bits x.2.1.bib ∧ ((x.1 <<< 2) ||| x.2.1.toNat) < 2 ^ 32 := by
+    intro x hx
+    obtain ⟨nums, hl, _, hp⟩ := hpay x hx
+    constructor
+    · rw [hp, Wellen.Store.writeNState_length, hl]
+    · have hxd : x.1 ∈ cs.map (·.1) := List.mem_map.mpr ⟨x, hx, rfl⟩
+      rw [hdl] at hxd
+      obtain ⟨t, ht, hle⟩ := deltasFrom_le _ 0 x.1 hxd
+      exact hdr_bound x.1 x.2.1 (by have := hsmall t ht; omega)
+  refine ⟨cs, ?_, hpay, ?_⟩
+  · exact absolutise_times _ 0 cs hdl hsorted (fun _ _ => Nat.zero_le _)
+  · have := single_block_load c signals i s bits tt t0 cs hs hb hd' hcsne hcs (by rw [← hd']; exact hlen)
+    simp only at this ⊢
+    rw [this, replayFixed_abs]
 
 end Wellen.Store
